@@ -287,6 +287,7 @@ def run_check(check, tier="quick", seed=0, workers=None, replay=None, log=sys.st
         "states": stats["paths"], "transitions": stats["transitions"], "traces_validated_against_impl": validated,
         "samples": [json.loads(json.dumps(s, default=str)) for s in samples[:5]] or [{"note": "no completed path"}],
         "obligations": counters["obligations"], "discharged": counters["discharged"],
+        "other_counters": {k: v for k, v in sorted(counters.items()) if k not in ("obligations", "discharged")},
         "functions_encoded": sorted(fns), "functions_encoded_count": len(fns), "entry_points": check.functions,
         "models_used": sorted(models), "bounds": check.bounds(tier), "outside_claim": check.outside,
         "path_outcomes": dict(outcomes), "solver_queries": stats["queries"], "solver_time_s": round(solver_s, 2), "solver_unknown": stats["unknown"],
